@@ -1318,6 +1318,25 @@ VARIANTS += [
 ]
 
 
+# ---------------------------------------------------------------------- round r7
+VARIANTS += [
+    V('C14-M50', 'M', ('C14',), SP, 'AutoProxy', r'_cache\[\(name, exposed\)\]', '_cache[name]', ('C14-15',), count=0, note='seeded C14-r7m1 shape: proxy type cache keyed by the type id alone'),
+    V('C14-E50', 'E', ('C14', 'C13'), SP, 'AutoProxy', r'_cache\[\(name, exposed\)\]', '_cache[(exposed, name)]', count=0, note='key components in the other order'),
+    V('C07-M50', 'M', ('C07',), ST, 'async_fifo_stream', r'except \(asyncio\.CancelledError, Exception\):', 'except asyncio.CancelledError:', ('C07-9',), note='seeded C07-r7m1 shape'),
+    V('C07-E50', 'E', ('C07', 'C05', 'C16'), ST, 'async_fifo_stream', r'except \(asyncio\.CancelledError, Exception\):', 'except BaseException:', note='wider handler in the clean-up'),
+    V('C09-M50', 'M', ('C09',), WK, 'Worker.__init__', r'if batch_size is None or batch_size == 0:', 'if batch_size is None or batch_size <= 1:', ('C09-12',), note='seeded C09-r7m2 shape'),
+    V('C09-M51', 'M', ('C09',), WK, 'Worker.__init__', r'if batch_size is None or batch_size == 0:\n(\s+)batch_size = 0', r'if not batch_size:\n\1batch_size = 1', ('C09-12',)),
+    V('C09-E50', 'E', ('C09', 'C02'), WK, 'Worker.__init__', r'if batch_size is None or batch_size == 0:', 'if not batch_size:', note='None and 0 both lead to 0'),
+    V('C11-M50', 'M', ('C11',), SL, 'ProcessServlet.start', r'p\.join\(\)  # this will raise', 'p.join(10)  # this will raise', ('C11-2',), note='seeded C11-r7m1 shape'),
+    V('C11-E50', 'E', ('C11', 'C02'), SL, 'ProcessServlet.start', r'p\.join\(\)  # this will raise', 'p.join(None)  # this will raise'),
+    V('C18-M50', 'M', ('C18',), SO, 'SocketServer._handle_connection._keep_responding', r'while True:\n(\s+)try:\n(\s+)req_id, t = await', r'while not self.to_shutdown:\n\1try:\n\2req_id, t = await', ('C18-15',), note='seeded C18-r7m1 shape'),
+    V('C18-M51', 'M', ('C18',), SO, 'SocketClient.stream._enqueue', r'\A.*\Z', lambda m: re.sub(r'\n(\s+)try:\n(\s+)fut = en\(path, x, timeout=et\)', r'\n\1t0 = perf_counter()\n\1try:\n\2fut = en(path, x, timeout=et)', re.sub(r'\n\s+t0 = perf_counter\(\)\n', '\n', m.group(0), count=1), count=1), ('C18-16',), note='seeded C18-r7m2 shape: the time stamp moved before the enqueue call'),
+    V('C18-E51', 'E', ('C18',), SO, 'SocketClient.stream._enqueue', r'(\n(\s+)try:\n\s+fut = en\(path, x, timeout=et\))', r'\n\2t0 = perf_counter()\1', note='an earlier stamp that the later one overwrites'),
+    V('C20-M50', 'M', ('C20',), CX, 'SpawnProcess.start', r"daemon=getattr\(self, 'daemon', None\),\n(\s+)\)\n(\s+)self\._logger_thread_\.start", r"daemon=self.daemon or None,\n\1)\n\2self._logger_thread_.start", ('C20-3',), note='seeded C20-r7m2 shape'),
+    V('C20-E50', 'E', ('C20', 'C12'), CX, 'SpawnProcess.start', r"daemon=getattr\(self, 'daemon', None\),\n(\s+)\)\n(\s+)self\._logger_thread_\.start", r"daemon=bool(self.daemon),\n\1)\n\2self._logger_thread_.start"),
+]
+
+
 # ---------------------------------------------------------------------- every local that is not a parameter renamed (and, second family, a statement added so that the function is not the recorded one up to renaming)
 def _rename_locals(pad):
     def f(m):
